@@ -218,15 +218,15 @@ def samples():
     P = np.array([[0, 1, 1, 0], [1, 0, 0, 1], [0, 0, 0, 1], [0, 0, 0, 0]])
     c = O.encode(P)
     out.append({"function": F + "semi_directed_paths", "inputs": {"fro": 1, "to": 3, "A": C.jsonable(P)},
-                "library": C.jsonable(U.semi_directed_paths(1, 3, P)), "oracle": [list(x) for x in O.semi_directed_paths(4, c, 1, 3)]})
+                "library": C.lib(U.semi_directed_paths, 1, 3, P), "oracle": [list(x) for x in O.semi_directed_paths(4, c, 1, 3)]})
     out.append({"function": F + "separates", "inputs": {"S": C.jsonable({2}), "A": C.jsonable({0}), "B": C.jsonable({3}), "G": C.jsonable(P)},
-                "library": bool(U.separates({2}, {0}, {3}, P)), "oracle": O.separated(4, c, {2}, {0}, {3})})
+                "library": C.lib(U.separates, {2}, {0}, {3}, P, render=bool), "oracle": O.separated(4, c, {2}, {0}, {3})})
     out.append({"function": F + "chain_component", "inputs": {"i": 0, "G": C.jsonable(P)},
-                "library": C.jsonable(U.chain_component(0, P)), "oracle": sorted(O.chain_component(4, c, 0))})
+                "library": C.lib(U.chain_component, 0, P), "oracle": sorted(O.chain_component(4, c, 0))})
     W = np.array([[0, -2., 0.5, 0], [0, 0, 0, 1.5], [0, 0, 0, -1], [0, 0, 0, 0]])
-    out.append({"function": F + "transitive_closure", "inputs": {"A": C.jsonable(W)}, "library": U.transitive_closure(W).tolist(),
+    out.append({"function": F + "transitive_closure", "inputs": {"A": C.jsonable(W)}, "library": C.lib(U.transitive_closure, W, render=lambda r: r.tolist()),
                 "oracle": C.mat(4, O.closure_code(4, O.encode(W)))})
-    out.append({"function": F + "ancestors", "inputs": {"i": 3, "A": C.jsonable(P)}, "library": C.jsonable(U.ancestors(3, P)),
+    out.append({"function": F + "ancestors", "inputs": {"i": 3, "A": C.jsonable(P)}, "library": C.lib(U.ancestors, 3, P),
                 "oracle": sorted(O.reach_directed(4, c, 3, False))})
     return out
 
@@ -266,7 +266,7 @@ def run(tier, seed):
                "every assignment of the nodes to A/B/S/none with A, B non-empty (p<=4) and all |A|=|B|=1, any S (p=5,6)" if thorough
                else "all ordered pairs |A|=|B|=1 with every S in the remaining nodes"))
     return C.report(tally, rule, exhaustive=True, bound="p<=4 (PDAGs), p<=5 (transitive_closure)%s" % (", sampled p=5,6" if thorough else ""),
-                    samples=samples())
+                    samples=C.safe_samples(samples))
 
 
 if __name__ == "__main__":
